@@ -875,7 +875,12 @@ MessageReceivedFromGateway(const MessageRef & msgRef, void * userData)
    {
       // New for v1.85; if the message has a PR_NAME_SESSION field in it, make sure it's the correct one!
       // This is to foil certain people (olorin ;^)) who would otherwise be spoofing messages from other people.
-      (void) msg.ReplaceString(false, PR_NAME_SESSION, GetSessionIDString());
+      // (The field is removed and re-added, rather than replaced in place, so that a field of another type, or with extra values, can't survive)
+      if (msg.HasName(PR_NAME_SESSION))
+      {
+         (void) msg.RemoveName(PR_NAME_SESSION);
+         (void) msg.AddString(PR_NAME_SESSION, GetSessionIDString());
+      }
 
       // what code not in our reserved range:  must be a client-to-client message
       if (msg.HasName(PR_NAME_KEYS, B_STRING_TYPE))
